@@ -109,6 +109,15 @@ CHECKS = {
              "rational arithmetic, with the Lean Float mirror reproducing Go bit for bit.",
         note=NOTE_COMMON + "Partial: segment-segment minimality (convexity argument) is oracle-checked, not proved; float rounding is bounded by tolerance 1e-9*scale, not proved.",
     ),
+    "C14": dict(
+        technique="Lean 4 theorems over commutative rings (telescoping fan identities: area and first moments are independent of the base point and equal the shoelace sums) + bit-exact Float correspondence + exact rational centroid/area oracle",
+        text="C14_fan_area and C14_fan_moment_x/y: for every closed ring and every base point, the sums the area-centroid calculator accumulates equal the "
+             "base-free shoelace area and first-moment sums (proved by exhibiting the telescoping potential), so the result is the area-weighted centroid "
+             "with holes subtracted whichever polygon supplied the base point; C14_triangle_centroid checks the /3/areasum2 normalisation. Ring direction, "
+             "the zero-area fallback, SignedArea's sign convention, start-vertex and direction independence are checked on every explored input against "
+             "exact rational arithmetic, with the Lean Float mirror reproducing Go bit for bit.",
+        note=NOTE_COMMON + "Partial: IsRingCounterClockwise's correctness on arbitrary simple rings and the float rounding of the accumulations are oracle-checked, not proved.",
+    ),
 }
 
 _PENDING = "check not built yet in this session (work in progress; see DESIGN.md §9 build order)"
